@@ -18,6 +18,7 @@ var _ = vp.Reg("Prefix", H_Prefix)
 var _ = vp.Reg("IntoRenderer", H_IntoRenderer)
 var _ = vp.Reg("IntoEncoder", H_IntoEncoder)
 var _ = vp.Reg("Gate", H_Gate)
+var _ = vp.Reg("GradientProgram", H_GradientProgram)
 
 // Every harness marks the input read-only; panics on any feasible path and
 // out-of-range reads are obligations raised by the executor itself.
@@ -177,4 +178,24 @@ func H_Gate() {
 	vp.Assert(vp.All(fin(vb.MinX), fin(vb.MinY), fin(vb.MaxX), fin(vb.MaxY), vb.MinX <= vb.MaxX, vb.MinY <= vb.MaxY),
 		"something was delivered, so the viewBox chunk was valid: finite and not inverted")
 	vp.Assert(vp.And(d.Log[0].Op == rec.OpReset, len(d.Log) == 2), "Reset, then the instruction")
+}
+
+// H_GradientProgram: a program too long for the generic windows: one colour
+// register set to an arbitrary 4-byte colour (every gradient-encoding value,
+// reserved bits included), one number register set to an arbitrary 1-byte
+// zero-to-one value with post-increment, then a path painted with that colour,
+// decoded into a real Renderer: no panic, bounded rasteriser activity.
+func H_GradientProgram() {
+	c := vp.Bytes("c", 4)
+	n := vp.Bytes("n", 2)
+	vp.Assume(vp.And(n[0]&1 == 0, n[1]&1 == 0))
+	src := []byte{0x89, 0x49, 0x56, 0x47, 0x00, 0x98, c[0], c[1], c[2], c[3], 0x40 | (n[0] >> 2), 0xbf, n[1], 0xc0, 0x80, 0x80, 0x00, 0x90, 0x90, 0xe1}
+	vp.ReadOnly(src)
+	var z render.Renderer
+	var ras rec.Raster
+	z.SetRasterizer(&ras, image.Rect(0, 0, 16, 16))
+	err := decode.Decode(&z, src)
+	vp.Reach("decoded")
+	vp.Assert(err == nil, "a well-formed program decodes")
+	vp.Assert(len(ras.Log) <= 5, "at most Reset, MoveTo, LineTo, ClosePath, Draw")
 }
